@@ -170,6 +170,42 @@ fn read_tree(root: &Path) -> BTreeMap<String, Vec<u8>> {
     out
 }
 
+/// strace prints bytes outside printable ASCII as C escapes (`\\303\\251`, `\\n`, `\\"`).
+fn unescape_strace(s: &str) -> String {
+    let b = s.as_bytes();
+    let mut out = Vec::with_capacity(b.len());
+    let mut i = 0;
+    while i < b.len() {
+        if b[i] != b'\\' || i + 1 >= b.len() {
+            out.push(b[i]);
+            i += 1;
+            continue;
+        }
+        let c = b[i + 1];
+        if (b'0'..=b'7').contains(&c) {
+            let mut v = 0u32;
+            let mut j = i + 1;
+            while j < b.len() && j < i + 4 && (b'0'..=b'7').contains(&b[j]) {
+                v = v * 8 + (b[j] - b'0') as u32;
+                j += 1;
+            }
+            out.push(v as u8);
+            i = j;
+        } else {
+            out.push(match c {
+                b'n' => b'\n',
+                b't' => b'\t',
+                b'r' => b'\r',
+                b'v' => 0x0b,
+                b'f' => 0x0c,
+                other => other,
+            });
+            i += 2;
+        }
+    }
+    String::from_utf8_lossy(&out).to_string()
+}
+
 /// Paths a traced process created, opened for writing, renamed to or linked (successful calls only).
 fn created_paths(strace: &str, cwd: &Path) -> Vec<String> {
     let mut out = Vec::new();
@@ -202,7 +238,7 @@ fn created_paths(strace: &str, cwd: &Path) -> Vec<String> {
                 }
             }
             let Some(e) = end else { break };
-            strs.push(tail[..e].to_string());
+            strs.push(unescape_strace(&tail[..e]));
             rest = &tail[e + 1..];
         }
         let writes = match name {
@@ -686,7 +722,10 @@ impl Engine for GenEngine {
             for d in 0..depth {
                 out_rel.push_str(&format!("/d{}", d));
             }
-            out_rel.push_str(if ctx.chance(1, 2) { "/generated" } else { "/g e n" });
+            // the last component is the user's choice: names that mean something to Cargo or to
+            // the generator itself must not change what is written
+            out_rel.push('/');
+            out_rel.push_str(ctx.with_tape(|t| *t.pick(&["generated", "g e n", "src", "lib", "mod", "target", "out", "src.rs", "SRC", "tests", "conjure", "r\u{e9}sultat", ".hidden", "a.b"])));
             let out_abs = cwd.join(&out_rel);
             let out_arg = if rel_out { out_rel.clone() } else { out_abs.to_string_lossy().to_string() };
             let mut noise: Vec<(String, String)> = (0..ctx.draw(4)).map(|i| (format!("NOISE_{}", i), format!("{}", ctx.draw(1 << 30)))).collect();
